@@ -4,6 +4,49 @@ import sys, os, json, time, argparse, subprocess, tempfile, glob, traceback
 ROOT = os.path.dirname(os.path.dirname(os.path.dirname(os.path.abspath(__file__))))
 REPO = os.environ.get('VERIF_REPO', '/repo')
 
+def selftest(which, verbose):
+    """Engine self-test on the corpus in /verif/selftest/<which>: functions named Ok_* must have every obligation discharged,
+    functions named Bad_* must have at least one failing obligation or be reported undecided.  Run after every engine change."""
+    corpus = os.path.join(ROOT, 'selftest', which)
+    out = tempfile.mkdtemp(prefix='gvc-selftest-')
+    env = dict(os.environ, VERIF_REPO=corpus, VERIF_OUT=out)
+    p = subprocess.run([sys.executable, '-m', 'gvc.core.main', 'prop', 'S01'] + (['-v'] if verbose else []), cwd=ROOT, env=env,
+                       stdout=subprocess.PIPE, stderr=subprocess.STDOUT, text=True)
+    if verbose:
+        print(p.stdout)
+    try:
+        ev = json.load(open(os.path.join(out, 'evidence', 'S01.json')))
+    except Exception:
+        print(p.stdout[-3000:]); print('SELFTEST: no evidence produced'); return 1
+    finally:
+        pass
+    per = {}
+    for o in ev['coverage']['per_obligation']:
+        f = o['name'].split('/')[0]
+        per.setdefault(f, []).append(o)
+    und = {u['function']: u['reason'] for u in ev['coverage']['undecided_functions']}
+    import re
+    names = sorted(set(re.findall(r'^//@ func (st\.(?:Ok|Bad)_\w+)', open(os.path.join(corpus, 'internal', 'verifspec', 'st.go')).read(), re.M)))
+    bad = 0
+    for n in names:
+        obls = per.get(n, [])
+        failed = [o for o in obls if o['status'] != 'discharged']
+        if n.startswith('st.Ok_'):
+            ok = n not in und and obls and not failed
+            why = ('undecided: ' + und[n]) if n in und else ('no obligations' if not obls else ', '.join(o['name'].split('/')[-1] for o in failed))
+        else:
+            ok = bool(failed) or n in und
+            why = 'every obligation was discharged (%d)' % len(obls)
+        if not ok:
+            bad += 1
+            print('SELFTEST FAIL %s: %s' % (n, why))
+        elif verbose:
+            print('selftest ok   %s%s' % (n, (' [undecided: %s]' % und[n][:80]) if n in und else (' [%d failed]' % len(failed) if failed else '')))
+    import shutil
+    shutil.rmtree(out, ignore_errors=True)
+    print('SELFTEST %s: %d functions, %d wrong' % (which, len(names), bad))
+    return 1 if bad else 0
+
 def main():
     ap = argparse.ArgumentParser()
     ap.add_argument('cmd', choices=['prop', 'replay', 'func', 'selftest'])
@@ -16,6 +59,8 @@ def main():
     if a.cmd == 'prop':
         from . import props
         sys.exit(props.run_property(a.target, a.tier, seed, verbose=a.v, only=a.only))
+    if a.cmd == 'selftest':
+        sys.exit(selftest(a.target, a.v))
     if a.cmd == 'replay':
         from . import replay
         sys.exit(replay.run_replay_file(a.target))
